@@ -95,6 +95,28 @@ Proof.
   intros. rewrite (live_split t). rewrite get_put_same. unfold put_task. cbn [w_tasks w_spawned set_tasks]. now rewrite others_tset.
 Qed.
 
+(** Keys of the task table stay duplicate-free. *)
+Lemma tset_keys_in : forall t x l, In t (map fst l) -> map fst (tset t x l) = map fst l.
+Proof.
+  induction l as [|[t' y] r IH]; cbn; intros H; [contradiction|].
+  destruct (N.eqb t t') eqn:E; cbn; auto.
+  f_equal. apply IH. destruct H as [H|H]; auto. subst. now rewrite N.eqb_refl in E.
+Qed.
+Lemma tset_keys_notin : forall t x l, ~ In t (map fst l) -> map fst (tset t x l) = map fst l ++ [t].
+Proof.
+  induction l as [|[t' y] r IH]; cbn; intros H; auto.
+  destruct (N.eqb t t') eqn:E; cbn.
+  - apply N.eqb_eq in E. subst. exfalso. auto.
+  - f_equal. apply IH. auto.
+Qed.
+Lemma tset_keys_nodup : forall t x l, NoDup (map fst l) -> NoDup (map fst (tset t x l)).
+Proof.
+  intros t x l H. destruct (in_dec N.eq_dec t (map fst l)) as [I|I].
+  - now rewrite tset_keys_in.
+  - rewrite tset_keys_notin by auto. apply NoDup_rev in H. rewrite <- rev_involutive.
+    apply NoDup_rev. rewrite rev_app_distr. cbn. constructor; auto. now rewrite <- in_rev.
+Qed.
+
 (** ** The frame *)
 Record Frame (w w' : world) : Prop := mkFrame {
   fr_created : w_created w' = w_created w;
@@ -105,7 +127,8 @@ Record Frame (w w' : world) : Prop := mkFrame {
                       /\ fu_all (tk_fu (get_task t w')) = fu_all (tk_fu (get_task t w))
                       /\ tk_alive (get_task t w') = tk_alive (get_task t w)
                       /\ tk_exited (get_task t w') = tk_exited (get_task t w);
-  fr_spawned : w_spawned w' = w_spawned w
+  fr_spawned : w_spawned w' = w_spawned w;
+  fr_keys : NoDup (map fst (w_tasks w)) -> NoDup (map fst (w_tasks w'))
 }.
 
 Lemma Frame_refl : forall w, Frame w w.
@@ -113,7 +136,7 @@ Proof. intros. split; auto. exists []. auto. Qed.
 
 Lemma Frame_trans : forall a b c, Frame a b -> Frame b c -> Frame a c.
 Proof.
-  intros a b c [A1 [l1 [A2 A2']] A3 A4 A5 A6] [B1 [l2 [B2 B2']] B3 B4 B5 B6]. split; try congruence.
+  intros a b c [A1 [l1 [A2 A2']] A3 A4 A5 A6 A7] [B1 [l2 [B2 B2']] B3 B4 B5 B6 B7]. split; try congruence; auto.
   - exists (l2 ++ l1). rewrite B2, A2, app_assoc. split; auto. rewrite forallb_app. now rewrite A2', B2'.
   - intros t. destruct (A5 t) as (?&?&?&?), (B5 t) as (?&?&?&?). repeat split; congruence.
 Qed.
@@ -128,6 +151,7 @@ Proof.
   - unfold live_bodies. now rewrite H1, H2.
   - intros. now rewrite H1.
   - intros. unfold get_task. now rewrite H1.
+  - now rewrite H1.
 Qed.
 
 Lemma Frame_hostf : forall f w w0, Frame w w0 -> Frame w (hostf f w0).
@@ -159,6 +183,7 @@ Proof.
   intros x w w0 Q H. eapply Frame_trans; eauto. split; try reflexivity.
   - exists [x]. cbn. now rewrite Q.
   - intros. repeat split.
+  - auto.
 Qed.
 
 (** Updates of a task that keep its body futures and its life. *)
@@ -208,14 +233,8 @@ Proof.
   - intros. now apply others_put.
   - intros t'. rewrite get_put. destruct (N.eqb t t') eqn:E; auto.
     apply N.eqb_eq in E. subst. auto.
+  - intros. unfold put_task. cbn [w_tasks set_tasks]. now apply tset_keys_nodup.
 Qed.
-
-Lemma Frame_put_fu : forall t f w w0,
-  fu_all f = fu_all (get_fu t w0) -> Frame w w0 -> Frame w (put_fu t f w0).
-Proof.
-  intros t f w w0 E H. unfold put_fu. apply Frame_upd; auto.
-  intros tk. cbn. auto.
-Abort.
 
 Lemma Frame_put_fu : forall t f w w0,
   fu_all f = fu_all (get_fu t w0) -> Frame w w0 -> Frame w (put_fu t f w0).
@@ -229,6 +248,7 @@ Proof.
   - intros. now apply others_put.
   - intros t'. rewrite get_put. destruct (N.eqb t t') eqn:E'; auto.
     apply N.eqb_eq in E'. subst. fold tk. cbn. auto.
+  - intros. unfold put_task. cbn [w_tasks set_tasks]. now apply tset_keys_nodup.
 Qed.
 
 Lemma fr_ids : forall w w', Frame w w' -> forall t, task_ids (get_task t w') = task_ids (get_task t w).
@@ -371,9 +391,7 @@ Lemma Frame_ctx_get_logged : forall w w0, Frame w w0 -> Frame w (fst (ctx_get_lo
 Proof. unfold ctx_get_logged. fr_auto. Qed.
 Lemma Frame_ctx_set_logged : forall v w w0, Frame w w0 -> Frame w (ctx_set_logged v w0).
 Proof. unfold ctx_set_logged. fr_auto. Qed.
-Lemma Frame_ctx_observe : forall w w0, Frame w w0 -> Frame w (ctx_observe w0).
-Proof. unfold ctx_observe. fr_auto. Qed.
-#[export] Hint Resolve Frame_ctx_get_logged Frame_ctx_set_logged Frame_ctx_observe : fr.
+#[export] Hint Resolve Frame_ctx_get_logged Frame_ctx_set_logged : fr.
 
 Lemma Frame_await_op_full : forall e t k wr w w0, Frame w w0 -> Frame w (fst (await_op_full e t k wr w0)).
 Proof. unfold await_op_full. fr_auto. Qed.
